@@ -188,8 +188,9 @@ def md010(v, cfg):
 
 def md013(v, cfg):
     """strict=true: any line longer than the limit of its kind (normal / heading / code block)"""
-    if not cfg.get("strict"):
+    if cfg.get("stern"):
         return set(), set()
+    strict = bool(cfg.get("strict"))
     ll, hl, cl = cfg.get("line_length", 80), cfg.get("heading_line_length", 80), cfg.get("code_block_line_length", 80)
     must, must_not = set(), set()
     atx_lines = {a for lv, a, b, mk, tx, d, _ in v.headings if mk.startswith("#") and b == a}
@@ -211,6 +212,13 @@ def md013(v, cfg):
             continue
         if lim is None:
             must_not.add(ln)
+        elif L > lim and not strict:
+            # "Long Last Words": without strict the rule triggers only if there is whitespace beyond the limit
+            beyond = v.line(ln)[lim:]
+            if re.search(r"\S[ ]\S", v.line(ln)[lim - 1:]) and "\t" not in v.line(ln):
+                must.add(ln)
+            elif not re.search(r"\s", v.line(ln)[max(lim - 2, 0):]):
+                must_not.add(ln)
         elif L > lim:
             must.add(ln)
         elif L <= min(ll, hl, cl):
@@ -317,9 +325,13 @@ def md025(v, cfg):
 
 
 def md024(v, cfg):
-    """multiple headings with the same text (strict comparison); default configuration only"""
+    """multiple headings with the same text (strict comparison).  siblings_only / allow_different_nesting: only a
+    heading that repeats the text of an earlier heading of the same level with no shallower heading in between (same
+    parent) MUST be reported; a repeat elsewhere in the hierarchy is not judged"""
+    siblings = bool(cfg.get("siblings_only") or cfg.get("allow_different_nesting"))
     must, must_not = set(), set()
     seen = set()
+    history = []  # (level, text) of judged headings, None for unjudged ones
     for lv, a, b, mk, tx, d, inline in v.headings:
         plain = all(c.type == "text" for c in (inline.children or []))
         raw = v.line(a)
@@ -327,14 +339,29 @@ def md024(v, cfg):
             plain = False  # extra blanks after the hashes: whether they belong to the compared "text" is not documented
         if not plain:
             seen.add(("?", a))
+            history.append(None)
             continue
         if tx in seen and tx.strip():
             if b == a:
-                must.add(a)
+                if not siblings:
+                    must.add(a)
+                else:
+                    same_parent = False
+                    for prev in reversed(history):
+                        if prev is None:
+                            break
+                        if prev[0] < lv:
+                            break
+                        if prev[0] == lv and prev[1] == tx:
+                            same_parent = True
+                            break
+                    if same_parent:
+                        must.add(a)
         else:
             if tx not in seen:
                 must_not |= set(range(a, b + 1))
         seen.add(tx)
+        history.append((lv, tx))
     must_not |= all_lines(v) - v.heading_lines
     return must, must_not
 
@@ -344,9 +371,14 @@ def md026(v, cfg):
     punct = cfg.get("punctuation", ".,;:!。，；：！")
     must, must_not = set(), set()
     for lv, a, b, mk, tx, d, inline in v.headings:
-        ch = inline.children or []
+        ch = [c for c in (inline.children or []) if not (c.type == "text" and c.content == "")]
+        if ch and ch[-1].type in ("code_inline", "html_inline", "image") and mk.startswith("#") and b == a:
+            raw = v.line(a).rstrip()
+            if raw and raw[-1] not in punct and raw[-1] != "#" and "&" not in raw and "\\" not in raw:
+                must_not.add(a)  # the heading ends with a code span / raw HTML / image, not with a punctuation character
+            continue
         if not ch or any(c.type not in ("text",) for c in ch):
-            continue  # headings with inline elements / entities at the end: undecided
+            continue  # other headings with inline elements / entities at the end: undecided
         raw = v.line(b if not mk.startswith("#") else a)
         if "&" in raw or "\\" in raw:
             continue
@@ -441,6 +473,10 @@ def md035(v, cfg):
         text = v.line(ln)
         if d != 0:
             continue  # inside containers the marker text has to be cut out of the line: undecided
+        if text != text.rstrip():
+            if want is None:
+                return set(), set()
+            continue  # trailing whitespace after the marker: only LEADING whitespace is documented as discarded
         text = text.strip()
         if want is None:
             want = text
@@ -618,15 +654,14 @@ def md032(v, cfg):
 
 
 def md029(v, cfg):
-    """ordered list item numbering (default one_or_ordered); top-level lists"""
-    if cfg.get("style", "one_or_ordered") != "one_or_ordered":
-        return set(), set()
+    """ordered list item numbering; styles one_or_ordered (default), one, zero, ordered; allow_extended_start_values lets an
+    ordered list start at any number; top-level lists, only the first offending item of a list is a MUST"""
+    style = cfg.get("style", "one_or_ordered")
+    ext = bool(cfg.get("allow_extended_start_values", False))
     must, must_not = set(), set()
-    ol_lines = set()
     for items in v.ol_lists:
         nums = []
         for ln, info, end in items:
-            ol_lines.add(ln)
             try:
                 nums.append(int(info))
             except ValueError:
@@ -634,18 +669,51 @@ def md029(v, cfg):
                 break
         if not nums:
             continue
+        lines = [ln for ln, _, _ in items]
         first = nums[0]
+        if style in ("one", "zero"):
+            want = 1 if style == "one" else 0
+            offender = False
+            for ln, x in zip(lines, nums):
+                if x == want:
+                    must_not.add(ln)
+                elif not offender:
+                    must.add(ln)  # (whether the items after the first offender are reported as well is not judged)
+                    offender = True
+            continue
+        if style == "ordered":
+            if first not in (0, 1) and not ext:
+                must.add(lines[0])
+                continue
+            ordered = all(x == first + i for i, x in enumerate(nums))
+            if ordered:
+                must_not.update(lines)
+            else:
+                k = next(i for i, x in enumerate(nums) if x != first + i)
+                must_not.update(lines[:k])
+                must.add(lines[k])
+            continue
+        # one_or_ordered
         if first not in (0, 1):
-            must.add(items[0][0])
+            if not ext:
+                must.add(lines[0])
+                continue
+            ordered = all(x == first + i for i, x in enumerate(nums))
+            if ordered:
+                must_not.update(lines)
+            else:
+                k = next(i for i, x in enumerate(nums) if x != first + i)
+                must_not.update(lines[:k])
+                must.add(lines[k])
             continue
         all_ones = all(x == first for x in nums) and first == 1
         ordered = all(x == first + i for i, x in enumerate(nums))
         if all_ones or ordered:
-            must_not.update(ln for ln, _, _ in items)
+            must_not.update(lines)
             continue
         for i, x in enumerate(nums):
             if i and x != 1 and x != first + i and x != first:
-                must.add(items[i][0])
+                must.add(lines[i])
     multi = {ln for ln, c in collections_counter(ln for ln, *_ in v.li_items).items() if c > 1}
     must -= multi
     must_not -= multi
@@ -665,9 +733,10 @@ def md030(v, cfg):
         if not m or not m.group(2):
             continue
         k = len(m.group(1))
-        if k == 1:
+        want = cfg.get("ul_single", 1) if mk in "-+*" else cfg.get("ol_single", 1)
+        if k == want:
             must_not.add(ln)
-        elif 2 <= k <= 4:
+        elif 1 <= k <= 4:
             must.add(ln)
     must_not |= all_lines(v) - item_lines
     return must, must_not
@@ -712,9 +781,9 @@ def md012(v, cfg):
     ln = 1
     near = set()
     while ln <= last_real:
-        if v.line(ln) == "":
+        if v.line(ln).strip(" \t") == "":
             s = ln
-            while ln <= last_real and v.line(ln) == "":
+            while ln <= last_real and v.line(ln).strip(" \t") == "":
                 ln += 1
             e = ln - 1  # run s..e of empty lines
             run = set(range(s, e + 1))
@@ -729,7 +798,10 @@ def md012(v, cfg):
                 must_not |= run
         else:
             ln += 1
-    must_not |= {l for l in all_lines(v) if l not in near and v.line(l).strip() != ""}
+    def qb(l):
+        return 1 <= l <= v.n and v.line(l).strip(" >\t") == ""
+
+    must_not |= {l for l in all_lines(v) if l not in near and not qb(l) and not qb(l - 1)}
     return must, must_not
 
 
@@ -780,6 +852,7 @@ def md027(v, cfg):
         return set(), all_lines(v)
     toks = v.tokens
     stack = []
+    must_not_first = set()
     for i, t in enumerate(toks):
         if t.type.endswith("_open") and t.type in ("blockquote_open", "bullet_list_open", "ordered_list_open", "list_item_open"):
             stack.append(t.type)
@@ -792,15 +865,21 @@ def md027(v, cfg):
                 must.add(first)
             elif re.match(r"^> ?[A-Za-z]", line) and "[" not in line:
                 must_not.add(first)
-    must_not |= {ln for ln in all_lines(v) if ">" not in v.line(ln) and not any(a <= ln <= b for t, a, b in v.top_blocks if t == "blockquote_open")}
+                must_not_first.add(first)
+    in_quote = set()
+    for t in toks:
+        if t.type == "blockquote_open" and t.map:
+            in_quote.update(range(t.map[0] + 1, t.map[1] + 2))
+    must_not |= {ln for ln in all_lines(v) if ">" not in v.line(ln) and ln not in in_quote}
+    must_not -= {ln for ln in must_not if ln in in_quote and ln not in must_not_first}
     return must, must_not
 
 
 def md028(v, cfg):
     """one or more blank lines between two block quotes (top level)"""
     must, must_not = set(), set()
-    quote_lines = [ln for ln in all_lines(v) if v.line(ln).lstrip(" ").startswith(">")]
-    if len(quote_lines) < 2 or not any(v.line(ln).strip() == "" for ln in range(min(quote_lines), max(quote_lines))):
+    quote_lines = [ln for ln in all_lines(v) if ">" in v.line(ln)]
+    if len(quote_lines) < 2 or not any(v.line(ln).strip(" >\t") == "" for ln in range(min(quote_lines), max(quote_lines))):
         return set(), all_lines(v)
     tb = v.top_blocks
     involved = set()
@@ -813,7 +892,7 @@ def md028(v, cfg):
     if all(t in ("blockquote_open", "paragraph_open", "heading_open", "hr") for t, a, b in tb):
         inner_blank = False
         for t, a, b in tb:
-            if t == "blockquote_open" and any(v.line(ln).strip() == "" for ln in range(a, b + 1)):
+            if t == "blockquote_open" and any(v.line(ln).strip(" >\t") == "" for ln in range(a, b + 1)):
                 inner_blank = True  # a blank line inside one quote token (lazy continuation cases): undecided
         if not inner_blank:
             must_not |= {ln for ln in all_lines(v) if ln not in involved and v.line(ln).strip() != ""}
@@ -898,7 +977,7 @@ def md037(v, cfg):
         line = v.line(ln)
         if not ch or not all(c.type == "text" for c in ch):
             continue
-        m = re.fullmatch(r" {0,3}((?:[A-Za-z0-9]+ )*)(\*{1,2}|_{1,2})( ?)([A-Za-z0-9]+(?: [A-Za-z0-9]+)*)( ?)\2((?: [A-Za-z0-9]+)*)", line)
+        m = re.fullmatch(r" {0,3}((?:[A-Za-z0-9]+ )+)(\*{1,2}|_{1,2})( ?)([A-Za-z0-9]+(?: [A-Za-z0-9]+)*)( ?)\2((?: [A-Za-z0-9]+)+)", line)
         if m and (m.group(3) or m.group(5)):
             must.add(ln)
     must_not |= {ln for ln in all_lines(v) if "*" not in v.line(ln) and "_" not in v.line(ln)}
@@ -958,8 +1037,10 @@ def _heading_style(v, h):
 
 
 def md003(v, cfg):
-    """heading style differs from the configured one / from the first heading's (consistent)"""
+    """heading style differs from the configured one / from the first heading's (consistent); allow-setext-update
+    (documented for style=consistent only) lets an unclosed ATX heading of level 3+ switch setext to setext_with_atx"""
     style = cfg.get("style", "consistent")
+    upd = bool(cfg.get("allow-setext-update", False)) and style == "consistent"
     must, must_not = set(), set()
     hs = [(h, _heading_style(v, h)) for h in v.headings]
     want = style
@@ -970,16 +1051,17 @@ def md003(v, cfg):
             if style == "consistent" and idx == 0:
                 break
             continue
-        if style == "consistent":
-            if idx == 0:
-                want = st
-                must_not |= rng
-                continue
-            if want == "setext" and st != "setext" and lv >= 3:
-                continue  # setext cannot express levels 3+: see allow-setext-update; not judged
+        if style == "consistent" and want == "consistent":
+            want = st
+            must_not |= rng
+            continue
         if want in ("atx", "atx_closed", "setext"):
-            if want == "setext" and st != "setext" and lv >= 3:
-                continue
+            if want == "setext" and st != "setext" and lv >= 3 and upd:
+                if st == "atx":
+                    want = "setext_with_atx"
+                    must_not |= rng
+                    continue
+                break  # a closed ATX heading of level 3+ with the update allowed: not documented; stop judging
             if st == want:
                 must_not |= rng
             else:
@@ -1067,6 +1149,99 @@ def md043(v, cfg):
     return {frozenset(range(1, v.n + 2))}, set()
 
 
+def _list_tree(v):
+    """[(kind 'ul'|'ol', parent chain of kinds incl. 'bq', [(line, indent, markup) per item])] for every list, from the
+    independent parser's tokens; indent = number of leading spaces of the item's line (None if a tab or a quote marker
+    precedes the list marker)"""
+    out = []
+    stack = []  # entries: ("bq",) | ("ul"|"ol", record)
+    for t in v.tokens:
+        if t.type == "blockquote_open":
+            stack.append(("bq", None))
+        elif t.type in ("bullet_list_open", "ordered_list_open"):
+            rec = {"kind": "ul" if t.type[0] == "b" else "ol", "chain": [k for k, _ in stack], "items": [], "parent_item": None}
+            for k, r in reversed(stack):
+                if k in ("ul", "ol") and r["items"]:
+                    rec["parent_item"] = r["items"][-1]
+                    break
+            out.append(rec)
+            stack.append((rec["kind"], rec))
+        elif t.type in ("blockquote_close", "bullet_list_close", "ordered_list_close"):
+            stack.pop()
+        elif t.type == "list_item_open" and t.map and stack and stack[-1][0] in ("ul", "ol"):
+            ln = t.map[0] + 1
+            line = v.line(ln)
+            m = re.match(r"^( *)(?:[-+*]|\d{1,9}[.)])", line)
+            stack[-1][1]["items"].append((ln, len(m.group(1)) if m else None, t.markup, t.info))
+    return out
+
+
+def md007(v, cfg):
+    """unordered list items that do not start at base + indent * (depth - 1); judged: top-level bullet lists (base 0) and
+    bullet lists directly inside an item of a top-level bullet list whose marker is followed by one space"""
+    indent = cfg.get("indent", 2)
+    if cfg.get("start_indented") or "\t" in v.src:
+        return set(), set()
+    must, must_not = set(), set()
+    per_line = collections_counter(ln for ln, *_ in v.li_items)
+    judged = set()
+    for rec in _list_tree(v):
+        if rec["kind"] != "ul":
+            continue
+        if rec["chain"] == []:
+            want = 0
+        elif rec["chain"] == ["ul"] and rec["parent_item"] is not None:
+            pln, pind, _, _ = rec["parent_item"]
+            if pind != 0 or not re.match(r"^[-+*] \S", v.line(pln)):
+                continue
+            want = indent
+        else:
+            continue
+        for ln, ind, mk, info in rec["items"]:
+            if ind is None or per_line[ln] != 1:
+                continue
+            if rec["chain"] == ["ul"] and not (2 <= ind <= 5):
+                continue
+            judged.add(ln)
+            if ind == want:
+                must_not.add(ln)
+            elif ind > want:
+                must.add(ln)  # (an item indented LESS than a non-default `indent` asks for is not judged: the examples only show too much)
+    must_not |= all_lines(v) - {ln for ln, *_ in v.li_items}
+    return must, must_not
+
+
+def md005(v, cfg):
+    """items of one list start at different indentations; judged: top-level lists without nesting (bullets, and ordered
+    lists whose numbers all have the same width, where left and right alignment coincide)"""
+    must, must_not = set(), set()
+    per_line = collections_counter(ln for ln, *_ in v.li_items)
+    tree = _list_tree(v)
+    nested_parents = {id(r["parent_item"]) for r in tree if r["parent_item"] is not None}
+    for rec in tree:
+        if rec["chain"] != [] or len(rec["items"]) < 2:
+            continue
+        if any(id(it) in nested_parents for it in rec["items"]) or any(ind is None or per_line[ln] != 1 for ln, ind, _, _ in rec["items"]):
+            continue
+        if rec["kind"] == "ol" and len({len(info) for _, _, _, info in rec["items"]}) != 1:
+            continue
+        base = rec["items"][0][1]
+        if base != 0 and any(ind != base for _, ind, _, _ in rec["items"]):
+            continue  # an indented first item followed by less indented ones: which item is "misaligned" is not documented
+        # a MUST only where every marker is followed by exactly one space (with wider markers the content column, not the
+        # marker column, may be what "indentation" means); a report on an item that starts where the first one does is
+        # spurious in any case
+        narrow = all(re.match(r"^ *(?:[-+*]|\d{1,9}[.)]) \S", v.line(ln)) for ln, _, _, _ in rec["items"])
+        for ln, ind, mk, info in rec["items"][1:]:
+            if ind == base:
+                must_not.add(ln)
+            elif narrow:
+                must.add(ln)
+        must_not.add(rec["items"][0][0])
+    must_not |= all_lines(v) - {ln for ln, *_ in v.li_items}
+    return must, must_not
+
+
 def collections_counter(it):
     import collections
 
@@ -1079,19 +1254,20 @@ REFS = {
     "md004": (md004, [{}, {"style": "dash"}, {"style": "asterisk"}, {"style": "plus"}]),
     "md009": (md009, [{}, {"strict": True}, {"br_spaces": 3}, {"br_spaces": 0}]),
     "md010": (md010, [{}, {"code_blocks": False}]),
-    "md013": (md013, [{"strict": True}, {"strict": True, "line_length": 30, "heading_line_length": 10, "code_block_line_length": 30},
+    "md013": (md013, [{}, {"line_length": 20, "heading_line_length": 12, "code_block_line_length": 10}, {"strict": True}, {"strict": True, "line_length": 30, "heading_line_length": 10, "code_block_line_length": 30},
                       {"strict": True, "line_length": 12, "heading_line_length": 30, "code_block_line_length": 30},
                       {"strict": True, "line_length": 30, "heading_line_length": 30, "code_block_line_length": 8},
-                      {"strict": True, "line_length": 10, "headings": False, "code_blocks": False}]),
+                      {"strict": True, "line_length": 10, "headings": False, "code_blocks": False},
+                      {"strict": True, "heading_line_length": 12, "code_blocks": False}, {"strict": True, "code_block_line_length": 8, "headings": False}]),
     "md018": (md018, [{}]),
     "md019": (md019, [{}]),
-    "md022": (md022, [{}]),
+    "md022": (md022, [{}, {"lines_above": 2}, {"lines_below": 2}, {"lines_above": 0, "lines_below": 0}]),
     "md023": (md023, [{}]),
-    "md024": (md024, [{}]),
+    "md024": (md024, [{}, {"siblings_only": True}, {"allow_different_nesting": True}]),
     "md025": (md025, [{}, {"level": 2}]),
     "md026": (md026, [{}, {"punctuation": "?x"}]),
-    "md029": (md029, [{}]),
-    "md030": (md030, [{}]),
+    "md029": (md029, [{}, {"style": "one"}, {"style": "zero"}, {"style": "ordered"}, {"allow_extended_start_values": True}, {"style": "ordered", "allow_extended_start_values": True}]),
+    "md030": (md030, [{}, {"ul_single": 2}, {"ol_single": 2}, {"ul_single": 3, "ol_single": 2, "ul_multi": 3, "ol_multi": 2}]),
     "md031": (md031, [{}]),
     "md032": (md032, [{}]),
     "md035": (md035, [{}, {"style": "---"}, {"style": "***"}]),
@@ -1103,7 +1279,10 @@ REFS = {
     "md047": (md047, [{}]),
     "md048": (md048, [{}, {"style": "backtick"}, {"style": "tilde"}]),
     # second batch
-    "md003": (md003, [{}, {"style": "atx"}, {"style": "atx_closed"}, {"style": "setext"}, {"style": "setext_with_atx"}, {"style": "setext_with_atx_closed"}]),
+    "md003": (md003, [{}, {"style": "atx"}, {"style": "atx_closed"}, {"style": "setext"}, {"style": "setext_with_atx"}, {"style": "setext_with_atx_closed"},
+                      {"allow-setext-update": True}, {"style": "setext", "allow-setext-update": True}]),
+    "md005": (md005, [{}]),
+    "md007": (md007, [{}, {"indent": 4}]),
     "md012": (md012, [{}, {"maximum": 2}]),
     "md014": (md014, [{}]),
     "md020": (md020, [{}]),
